@@ -100,7 +100,7 @@ type c12Sched struct {
 	Type       string `json:"type"`      // asa | panos
 	Holder     string `json:"holder"`    // drc-approve | drc-compare | doapprove-approve | doapprove-compare
 	Phase      string `json:"phase"`     // after-lock | login | config-read | mid-apply | save | before-status
-	Contender  string `json:"contender"` // drc-abs | drc-rel | drc-current | drc-compare-abs | doapprove-approve | doapprove-compare
+	Contender  string `json:"contender"` // drc-abs | drc-rel | drc-current | drc-compare-abs | doapprove-approve | doapprove-compare | drc-compare-nolog | drc-nolog (without -L)
 	NContend   int    `json:"n_contenders"`
 	KillHolder bool   `json:"kill_holder"`
 }
@@ -233,7 +233,7 @@ func runC12(env *run.Env, sc *c12Sched, refEvents map[string][]sim.Event) c12Res
 	logf := func(f string, a ...any) { res.Log = append(res.Log, fmt.Sprintf(f, a...)) }
 	holderFE, holderCmp := "drc", false
 	switch sc.Holder {
-	case "drc-compare":
+	case "drc-compare", "drc-compare-nolog":
 		holderCmp = true
 	case "doapprove-approve":
 		holderFE = "do-approve"
@@ -242,6 +242,7 @@ func runC12(env *run.Env, sc *c12Sched, refEvents map[string][]sim.Event) c12Res
 	}
 	lc := buildC06(&c06Case{Type: sc.Type, FrontEnd: holderFE, Scenario: 0, Hostname: "exact", Marker: "present"})
 	lc.Compare = holderCmp
+	lc.NoLogDir = sc.Holder == "drc-compare-nolog" // manual 'drc -C FILE' without -L
 	lc.Timeout = 20
 	dir := env.CaseDir()
 	defer os.RemoveAll(dir)
@@ -352,11 +353,16 @@ func runC12(env *run.Env, sc *c12Sched, refEvents map[string][]sim.Event) c12Res
 		clc := *lc
 		clc.FrontEnd = "drc"
 		clc.Compare = false
+		clc.NoLogDir = false
 		cwd := dir
 		switch sc.Contender {
 		case "drc-abs":
 		case "drc-compare-abs":
 			clc.Compare = true
+		case "drc-compare-nolog":
+			clc.Compare, clc.NoLogDir = true, true
+		case "drc-nolog":
+			clc.NoLogDir = true
 		case "drc-rel":
 			clc.DeviceArg = "router"
 			cwd = filepath.Join(base, "policies/p1/code")
@@ -515,7 +521,7 @@ func stressC12(env *run.Env, typ string, nproc, rounds int, rep *ev.Reporter) {
 	spec := filepath.Join(dir, "spec.json")
 	lc.Cli.Write(spec)
 	simulate := filepath.Join(env.Verif, ".work/bin/simcli") + " " + spec
-	kinds := []string{"drc-abs", "drc-compare-abs", "doapprove-approve", "doapprove-compare", "drc-rel", "drc-current"}
+	kinds := []string{"drc-abs", "drc-compare-abs", "doapprove-approve", "doapprove-compare", "drc-rel", "drc-current", "drc-compare-nolog"}
 	var ops []porcupine.Operation
 	for r := 0; r < rounds; r++ {
 		os.Remove(events)
@@ -527,6 +533,8 @@ func stressC12(env *run.Env, typ string, nproc, rounds int, rep *ev.Reporter) {
 			switch kinds[(i+r)%len(kinds)] {
 			case "drc-compare-abs":
 				clc.Compare = true
+			case "drc-compare-nolog":
+				clc.Compare, clc.NoLogDir = true, true
 			case "drc-rel":
 				clc.DeviceArg = "router"
 				cwd = filepath.Join(base, "policies/p1/code")
@@ -643,7 +651,7 @@ func checkC12(tier, replay string) int {
 	} else {
 		n := 0
 		for _, typ := range []string{"asa", "panos"} {
-			for _, h := range []string{"drc-approve", "drc-compare", "doapprove-approve", "doapprove-compare"} {
+			for _, h := range []string{"drc-approve", "drc-compare", "doapprove-approve", "doapprove-compare", "drc-compare-nolog"} {
 				phases := []string{"after-lock", "login", "config-read"}
 				if strings.HasSuffix(h, "approve") {
 					phases = append(phases, "mid-apply", "save")
@@ -652,7 +660,7 @@ func checkC12(tier, replay string) int {
 					phases = append(phases, "before-status")
 				}
 				for _, ph := range phases {
-					for _, c := range []string{"drc-abs", "drc-compare-abs", "drc-rel", "drc-current", "doapprove-approve", "doapprove-compare"} {
+					for _, c := range []string{"drc-abs", "drc-compare-abs", "drc-rel", "drc-current", "doapprove-approve", "doapprove-compare", "drc-compare-nolog", "drc-nolog"} {
 						for _, nc := range []int{1, 3} {
 							for _, kill := range []bool{false, true} {
 								n++
